@@ -104,6 +104,52 @@ static std::string handle(const std::vector<std::string>& a) {
     out += " leaked=" + std::to_string(spy.live.size()) + (spy.misuse ? " MISUSE" : "");
     return out;
   }
+  // SBF ... : the same through StringBuffer (reserve(n), fill, save()), the MessagePack reader's path
+  if (a[0] == "SBF" && a.size() >= 4) {
+    SpyAllocator spy;
+    if (a[3] != "-") { spy.fail.assign(a[3].size(), false); for (size_t i = 0; i < a[3].size(); i++) spy.fail[i] = a[3][i] == '0'; }
+    std::string out;
+    {
+      detail::ResourceManager rm(&spy);
+      {
+        detail::StringBuffer sb(&rm);
+        for (size_t i = 4; i < a.size(); i++) {
+          const std::string& op = a[i];
+          if (op.empty()) continue;
+          std::string body = unhex(op.substr(1));
+          size_t logStart = spy.log.size();
+          std::string res;
+          if (op[0] == 's') {
+            char* p = sb.reserve(body.size());
+            if (!p) res = "NoMemory";
+            else {
+              memcpy(p, body.data(), body.size());
+              detail::StringNode* node = sb.save();
+              res = std::to_string((size_t)node->length) + ":" + std::to_string((size_t)node->references) + ":" + hex(node->data, node->length);
+              if (node->data[node->length] != 0) res += "!UNTERMINATED";
+            }
+          } else {
+            detail::StringNode* node = rm.getString(detail::adaptString(body.data(), body.size()));
+            if (node) rm.dereferenceString(node->data);
+            res = "-";
+          }
+          std::string evs;
+          for (size_t k = logStart; k < spy.log.size(); k++) {
+            const SpyAllocator::Call& cl = spy.log[k];
+            if (!evs.empty()) evs += ",";
+            if (cl.kind == 'a') evs += "a" + std::to_string(cl.a) + (cl.ok ? "+" : "-");
+            else if (cl.kind == 'r') evs += "r" + std::to_string(cl.a) + ">" + std::to_string(cl.b) + (cl.ok ? "+" : "-");
+            else evs += "f" + std::to_string(cl.a);
+          }
+          out += res + "/" + evs + " ";
+        }
+        out += "live=" + std::to_string(spy.live.size());
+      }
+      rm.clear();
+    }
+    out += " leaked=" + std::to_string(spy.live.size()) + (spy.misuse ? " MISUSE" : "");
+    return out;
+  }
   if (a[0] == "ARUN") {
     SpyAllocator spy;
     std::string out;
